@@ -51,3 +51,16 @@ Definition params_digest_region (pkt : bytes) : option bytes :=
 (* well-formedness of inputs: the domain the wire format can carry *)
 (* a duration the wire format carries: whole milliseconds, any sign (negative values wrap through uint64 and back) *)
 Definition dur_wf (d : Z) : Prop := (d mod 1000000 = 0)%Z /\ (- two63z <= d < two63z)%Z.
+
+(* C12, tampering: bit i of a byte string (octet i / 8, bit i mod 8) inverted *)
+Definition flip_bit (b : bytes) (i : nat) : bytes :=
+  match skipn (i / 8) b with
+  | x :: t => firstn (i / 8) b ++ N.lxor x (2 ^ N.of_nat (i mod 8)) :: t
+  | [] => b
+  end.
+(* where the value of the outermost TLV begins (for a Data: the first octet of the signed portion) *)
+Definition value_offset (pkt : bytes) : nat :=
+  match tl_dec pkt with
+  | Some (_, r1) => match tl_dec r1 with Some (_, r2) => (length pkt - length r2)%nat | None => 0%nat end
+  | None => 0%nat
+  end.
